@@ -184,9 +184,28 @@ func (c *c33Chain) PastDepositRevealedEvents(f *tbtc.DepositRevealedEventFilter)
 		})
 	}
 	if f == nil || f.EndBlock == nil {
-		out = c33Reorder(out, w.orderMode, w.orderPerm)
+		out = c33ReorderBlocks(out, func(e *tbtc.DepositRevealedEvent) uint64 { return e.BlockNumber }, w.orderMode, w.orderPerm)
 	}
 	return out, nil
+}
+
+// c33ReorderBlocks reorders an event list (given sorted by block) at the
+// granularity of whole blocks: like the production binding (eth_getLogs order,
+// stable sort by block number) the events of one block always stay in their
+// log = reveal order; which block range comes first is up to the tape.
+func c33ReorderBlocks[T any](in []T, block func(T) uint64, mode int, perm []int) []T {
+	var groups [][]T
+	for i, e := range in {
+		if i == 0 || block(e) != block(in[i-1]) {
+			groups = append(groups, nil)
+		}
+		groups[len(groups)-1] = append(groups[len(groups)-1], e)
+	}
+	out := make([]T, 0, len(in))
+	for _, g := range c33Reorder(groups, mode, perm) {
+		out = append(out, g...)
+	}
+	return out
 }
 
 // c33Reorder models a client that assembles the event list from several
@@ -333,7 +352,7 @@ func (c *c33Chain) PastRedemptionRequestedEvents(f *tbtc.RedemptionRequestedEven
 	for _, it := range items {
 		evs = append(evs, it.e)
 	}
-	return c33Reorder(evs, w.orderMode, w.orderPerm), nil
+	return c33ReorderBlocks(evs, func(e *tbtc.RedemptionRequestedEvent) uint64 { return e.BlockNumber }, w.orderMode, w.orderPerm), nil
 }
 
 func (c *c33Chain) BuildRedemptionKey(wallet [20]byte, script bitcoin.Script) (*big.Int, error) {
@@ -534,6 +553,31 @@ func c33CheckSelection(kind string, eligible []c33Ref, got []c33Ref, max int) (s
 	return "", ""
 }
 
+// c33CheckRevealOrder: eligible is in reveal order (block, then position
+// inside the block). got must be exactly the first max of them, where an
+// optional element (its confirmations query failed) may be left out.
+func c33CheckRevealOrder(eligible []c33Ref, got []c33Ref, max int) string {
+	gi := 0
+	for _, e := range eligible {
+		switch {
+		case gi < len(got) && got[gi].id == e.id:
+			gi++
+		case e.opt:
+		case gi == len(got) && len(got) == max:
+			// cut by the limit
+		default:
+			if gi < len(got) {
+				return fmt.Sprintf("position %d of the result holds deposit %d, but deposit %d was revealed earlier (same block, earlier log) and is eligible", gi, got[gi].id, e.id)
+			}
+			return fmt.Sprintf("deposit %d is eligible and was revealed before the cut but is missing", e.id)
+		}
+	}
+	if gi != len(got) {
+		return fmt.Sprintf("position %d of the result (deposit %d) is out of reveal order", gi, got[gi].id)
+	}
+	return ""
+}
+
 func (w *c33World) eligibleDeposits() []c33Ref {
 	var out []c33Ref
 	now := time.Now()
@@ -612,6 +656,37 @@ func c33Run(t *testing.T, r *verifsim.Run) {
 	var lastTx bitcoin.Hash
 	var lastTxHeight int
 	haveLastTx := false
+	if tp.Chance("many-reveals", 1, 3) {
+		// a busy wallet: 13-40 reveals, several per host-chain block, funded deep enough
+		n := 13 + tp.Choose("many-reveals-n", 28)
+		for len(w.deposits) < n {
+			group := 1 + tp.Choose("reveals-in-block", 6)
+			for g := 0; g < group; g++ {
+				w.nextTx++
+				s := sha256.Sum256([]byte(fmt.Sprintf("c33-funding-%d", w.nextTx)))
+				d := &c33Deposit{id: len(w.deposits), wallet: w.wallet, block: w.block, revealedAt: time.Now(),
+					amount: uint64(100000 + tp.Choose("amount", 5)*50000), txHash: bitcoin.Hash(s), idx: uint32(tp.Choose("funding-idx", 3))}
+				switch tp.Weighted("busy-funding", 8, 1, 1) {
+				case 0:
+					d.btcHeight = w.tip - 5 - tp.Choose("funding-depth", 4)
+				case 1:
+					d.btcHeight = w.tip - tp.Choose("funding-shallow", 5)
+				default:
+					d.btcHeight = 0
+				}
+				if tp.Chance("other-wallet-deposit", 1, 10) {
+					d.wallet = w.other
+				}
+				w.deposits = append(w.deposits, d)
+			}
+			advance([]int{10, 20, 60}[tp.Choose("busy-dt", 3)])
+		}
+		r.Logf("t=%d busy wallet: %d deposits revealed in blocks %d..%d", w.rel(time.Now()), len(w.deposits), w.deposits[0].block, w.deposits[len(w.deposits)-1].block)
+		r.Probe("busy-wallet-13-plus-reveals")
+		if tp.Chance("busy-age", 3, 4) {
+			advance(7210)
+		}
+	}
 	steps := 12 + tp.Choose("steps", 30)
 	for step := 0; step < steps && !r.Failed(); step++ {
 		r.Step()
@@ -855,6 +930,16 @@ func c33Discover(w *c33World, ch *c33Chain, btc *c33Btc, logger log.StandardLogg
 		}
 		if class, msg := c33CheckSelection("deposits", elD, got, int(max)); class != "" {
 			r.Failf(class, "FindDepositsToSweep(max %d) at t=%d: %s; result %v, eligible %v", max, now, msg, ids, elD)
+		} else if msg := c33CheckRevealOrder(elD, got, int(max)); msg != "" {
+			r.Failf("C33:deposits-reveal-order-within-block", "FindDepositsToSweep(max %d) at t=%d: %s; result %v, eligible in reveal order %v", max, now, msg, ids, elD)
+		}
+		if n := len(got); n > 0 && n == int(max) {
+			for _, e := range elD {
+				if e.key == got[n-1].key && e.id > got[n-1].id {
+					r.Probe("deposit-limit-cuts-inside-one-block")
+					break
+				}
+			}
 		}
 	case 1: // ---- redemptions ----
 		max := w.redMax
@@ -1010,6 +1095,8 @@ func c33Generate(w *c33World, ch *c33Chain, btc *c33Btc, now int) {
 		}
 		if class, msg := c33CheckSelection("deposits", elD, got, int(w.sweepMax)); class != "" {
 			r.Failf(class, "Generate deposit sweep at t=%d: %s; result %v, eligible %v", now, msg, got, elD)
+		} else if msg := c33CheckRevealOrder(elD, got, int(w.sweepMax)); msg != "" {
+			r.Failf("C33:deposits-reveal-order-within-block", "Generate deposit sweep at t=%d: %s; result %v, eligible in reveal order %v", now, msg, got, elD)
 		}
 	case *tbtc.RedemptionProposal:
 		r.Probe("generate-redemption")
